@@ -51,6 +51,7 @@ BD, DRAIN, ITER2 = "bound", "drainstruct", "sliceiter"
 SLICE, CB2 = "slice", "cb2"   # a sub-slice of the vector's buffer (first slot, length); a two-argument predicate (call log as data)
 VECSNAP = "vecsnap"       # the receiver of a `&self` method that builds a new vector: a snapshot of the source vector (`V.VS`)
 ESLICE = "elemslice"       # `&[T]` outside the buffer whose elements are read (cloned), not copied bitwise: the list of its elements
+OVECREF = "ovecref"       # `other: &mut Self`: a second vector, threaded as a value (in/out)
 VIT = "vit"               # an iterator handed to the vector by value (the model's `V.It`): owned by the local that holds it
 XSLICE = "xslice"         # a slice outside the vector's buffer (`&[T]`, `*const [T]`): its slots
 XPTR = "xptr"             # pointer to the first element of such a slice
@@ -91,6 +92,7 @@ def lean_ty(t):
     if t == SLICE: return "(Nat × Nat)"
     if t == XSLICE: return "(List (Option V.Elem))"
     if t == VIT: return "V.It"
+    if t == OVECREF: return "V.VS"
     if t == ESLICE: return "(List V.Elem)"
     if t == VECSNAP: return "V.VS"
     if t == CB2: return "(Nat → V.Elem → V.Elem → Option Bool)"
@@ -274,12 +276,18 @@ FUNCS += [
 ]
 FUNCS[-1].builds_vec = True
 FUNCS[-2].builds_vec = True
+FUNCS[-1].returns_param = None
 FUNCS += [
+    Fn("split_off", "vec", "st", file=VEC_RS, group="VecCopy", anchor=VEC_IMPL, lean="vec_split_off", ret=VSVAL),
+    Fn("append", "vec", "st", file=VEC_RS, group="VecCopy", anchor=VEC_IMPL, lean="vec_append", ptypes={"other": OVECREF}, ret=VSVAL),
     Fn("extend_from_slice", "vec", "st", file=VEC_RS, group="VecCopy", lean="vec_extend_from_slice", ptypes={"other": "elemslice"}),
     Fn("write", "vec", "st", file=VEC_RS, group="VecCopy", anchor="io::Write for Vec<'bump, u8>", lean="vec_io_write", ptypes={"buf": "xslice"}, ret=res(NAT)),
     Fn("write_all", "vec", "st", file=VEC_RS, group="VecCopy", anchor="io::Write for Vec<'bump, u8>", lean="vec_io_write_all", ptypes={"buf": "xslice"}, ret=res(UNIT)),
     Fn("flush", "vec", "st", file=VEC_RS, group="VecCopy", anchor="io::Write for Vec<'bump, u8>", lean="vec_io_flush", ret=res(UNIT)),
 ]
+for _f in FUNCS:
+    if _f.lean == "vec_append":
+        _f.returns_param = "other"
 DRAIN_FIELDS = [("tail_start", "usize"), ("tail_len", "usize"), ("iter", "slice::Iter<'a,T>")]
 FUNCS += [
     Fn("drain", "vec", "st", file=VEC_RS, group="VecDrain", anchor=VEC_IMPL, lean="vec_drain", ptypes={"range": ("tuple", [BD, BD])}),
@@ -547,6 +555,8 @@ class Tr:
         for ln in list(env.owned):
             if not isinstance(ln, tuple) and re.search(r"(?<![A-Za-z0-9_.'])%s(?![A-Za-z0-9_'])" % re.escape(ln), t):
                 env = env.disown(ln)
+        if getattr(self.fn, "returns_param", None) and ty == UNIT:
+            t, ty = env.d[self.fn.returns_param][0], VSVAL
         if ty == VECSELF and any(isinstance(x, tuple) and x[0] == "vecval" for x in env.owned):
             env = env.copy()
             env.owned = [x for x in env.owned if not (isinstance(x, tuple) and x[0] == "vecval")]     # moved out to the caller
@@ -801,6 +811,10 @@ class Tr:
                 return f"(0, {self.sv}.1.len)", SLICE
             if ty == SLICE and name == "len" and not args:
                 return f"{paren(t)}.2", NAT
+            if ty in (VSVAL, OVECREF) and name == "len" and not args:
+                return f"{paren(t)}.len", NAT
+            if ty == OVECREF and name == "as_slice" and not args:
+                return f"({paren(t)}.slots.take {paren(t)}.len)", XSLICE
             if ty == VECSNAP and name == "len" and not args:
                 return f"{paren(t)}.len", NAT
             if ty == ESLICE and name == "iter" and not args:
@@ -2127,6 +2141,16 @@ class Tr:
                     self.gens[ln] = init[2][0][2]
                     return go(i + 1, e3)
 
+                if pat[0] == "pid" and init[0] == "call" and init[1] == ("path", ["Vec", "with_capacity_in"]) \
+                        and self.fn.kind == "vec" and not getattr(self.fn, "builds_vec", False):
+                    # a second vector, held as a value next to the receiver
+                    def kcap(n_, tn_, e2):
+                        def kv(r_, tr_, e3):
+                            e4 = e3.copy()
+                            e4.d[pat[1]] = (r_, VSVAL)
+                            return go(i + 1, e4)
+                        return self.bind_call(f"Gen.Fn.vec_with_capacity_in c {paren(n_)} ()", "pure", K(kv), e2, VSVAL)
+                    return self.E(init[2][0], env_, K(kcap))
                 if pat[0] == "pid" and init[0] == "call" and init[1][0] == "path" and init[1][1] in (["Vec", "new_in"], ["Vec", "with_capacity_in"]) \
                         and self.fn.kind == "vec" and getattr(self.fn, "builds_vec", False):
                     # the function builds a new vector: from here on the threaded vector is the new one (the frame owns it: `Drop
@@ -2249,6 +2273,37 @@ class Tr:
                     return self.bind_call(f"Gen.Fn.df_drop c {cbt} {d}.idx {d}.del {d}.oldLen {d}.calls {d}.panicFlag", "st", K(kr), e2,
                                           ("tuple", [UNIT, NAT]), nopanic=True)
                 return self.bind_call(f"Gen.Fn.vec_drain_filter c {cbt}", "st", K(kd), env_, DFSTRUCT, nopanic=True)
+            # ---- a second vector held as a value (`other` in `split_off` / `append`) ----
+            def second_vec(pth):
+                return pth[0] == "path" and len(pth[1]) == 1 and pth[1][0] in env_.d and env_.d[pth[1][0]][1] in (VSVAL, OVECREF)
+            if st[0] == "expr" and st[1][0] == "mcall" and st[1][2] == "set_len" and len(st[1][3]) == 1 and second_vec(st[1][1]):
+                nm = st[1][1][1][0]
+
+                def kset(n_, tn_, e2):
+                    e3, ln = e2.bind(nm, env_.d[nm][1])
+                    return f"let {ln} := {{ {e2.d[nm][0]} with len := {n_} }};\n{go(i + 1, e3)}"
+                return self.E(st[1][3][0], env_, K(kset))
+            if st[0] == "expr" and st[1][0] == "call" and st[1][1][0] == "path" and st[1][1][1][-2:] == ["ptr", "copy_nonoverlapping"] \
+                    and len(st[1][2]) == 3 and st[1][2][1][0] == "mcall" and st[1][2][1][2] == "as_mut_ptr" and second_vec(st[1][2][1][1]):
+                nm = st[1][2][1][1][1][0]
+
+                def kcp(pa, e2):
+                    if pa[0][1] != SLOT or pa[1][1] != NAT:
+                        raise Untranslatable("copy into a second vector")
+                    def kres(r_, tr_, e3):
+                        e4, ln = e3.bind(nm, env_.d[nm][1])
+                        return f"let {ln} := {r_};\n{go(i + 1, e4)}"
+                    return self.bind_call(f"RsM.copy_out c {pa[0][0]} {pa[1][0]} {e2.d[nm][0]}", "st", K(kres), e2, VSVAL, nopanic=True)
+                return self.args([st[1][2][0], st[1][2][2]], env_, kcp)
+            if st[0] == "let" and st[1][0] == "pid" and st[2] is not None and st[2][0] == "call" and st[2][1] == ("path", ["Vec", "with_capacity_in"]) \
+                    and self.fn.kind == "vec" and not getattr(self.fn, "builds_vec", False):
+                def kcap(n_, tn_, e2):
+                    def kv(r_, tr_, e3):
+                        e4 = e3.copy()
+                        e4.d[st[1][1]] = (r_, VSVAL)
+                        return go(i + 1, e4)
+                    return self.bind_call(f"Gen.Fn.vec_with_capacity_in c {paren(n_)} ()", "pure", K(kv), e2, VSVAL)
+                return self.E(st[2][2][0], env_, K(kcap))
             if st[0] == "expr" and st[1][0] == "mcall" and st[1][2] == "fill" and st[1][3] == [("int", 0)] and st[1][1][0] == "index" \
                     and st[1][1][2][0] == "range" and st[1][1][2][2] is None:
                 base = st[1][1][1]
